@@ -15,9 +15,26 @@ VERIF = '/verif'
 OUT = '/tmp/ipt_seed_out'
 
 def sh(cmd, cwd=None, env=None, timeout=3600):
+    """Runs a shell command in its own process group; on timeout the whole group is killed (a mutant that makes the
+    library loop for ever must not leave orphaned test or check processes behind)."""
+    import signal
     e = dict(os.environ)
     if env: e.update(env)
-    return subprocess.run(cmd, shell=True, cwd=cwd, env=e, capture_output=True, text=True, timeout=timeout)
+    p = subprocess.Popen(cmd, shell=True, cwd=cwd, env=e, stdout=subprocess.PIPE, stderr=subprocess.PIPE, text=True, start_new_session=True)
+    try:
+        out, err = p.communicate(timeout=timeout)
+        rc = p.returncode
+    except subprocess.TimeoutExpired:
+        try:
+            os.killpg(p.pid, signal.SIGKILL)
+        except ProcessLookupError:
+            pass
+        out, err = p.communicate()
+        rc = 124
+    class R: pass
+    r = R(); r.returncode = rc; r.stdout = out or ''; r.stderr = err or ''
+    return r
+
 
 def tests_summary(out):
     p = sum(int(l.split()[3]) for l in out.splitlines() if l.startswith('test result'))
